@@ -312,7 +312,8 @@ class AstChecks:
         vs += O.check_C06_collision(inv, outv, to_view(res['H'].status(), I.P.defs), res['cfgspec'].prefix)
         vs += O.check_C04(inv, outv, er, erased, res['cfgspec'].terms)
         vs += O.check_C01(inv, outv)
-        return vs, 8 + len(er.hooks)
+        vs += O.check_C09_spans(inv, outv, er)
+        return vs, 9 + len(er.hooks)
 
     def check_path(self, I, ctx, res, replay, do_tv):
         defs = I.P.defs
@@ -465,7 +466,8 @@ class ProgramScenario(AstChecksBase):
         vs += O.check_C07(inv, outv)
         vs += O.check_C06_collision(inv, outv, to_view(res['H'].status(), I.P.defs), res['cfgspec'].prefix)
         vs += O.check_C04(inv, outv, er, erased, res['cfgspec'].terms)
-        return vs, 8 + len(er.hooks)
+        vs += O.check_C09_spans(inv, outv, er)
+        return vs, 9 + len(er.hooks)
 
 
 # ---------------------------------------------------------------------------------------------
@@ -717,12 +719,12 @@ class TransformScenario(ProgramScenario):
         r = res['result']
         prints = res['prints']
 
-        def vio(role, cond, detail):
+        def vio(role, cond, detail, prop='C12'):
             if cond is False:
                 return
             if cond is not True and not ctx.check(cond):
                 return
-            info['violations'].append({'prop': 'C12', 'role': role, 'detail': detail, 'witness': {'input': detail, 'agree': True, 'note': 'glue-level obligation on transform_js (Compiler::print stubbed); no native replay'}})
+            info['violations'].append({'prop': prop, 'role': role, 'detail': detail, 'witness': {'input': detail, 'agree': True, 'note': 'glue-level obligation on transform_js (Compiler::print stubbed); no native replay'}})
 
         if r.variant == 1:
             # Err: only for cancelled rewrites
@@ -760,9 +762,9 @@ class TransformScenario(ProgramScenario):
                 pa = to_view(prints[0]['args'], defs)
                 fn = pa.get('source_file_name')
                 if fn is None or O.leaf_eq(fn, 'test.js') is not True:
-                    vio('transform/source-file-name-is-not-the-base-name', True, 'source_file_name = %s' % (fn,))
+                    vio('transform/source-file-name-is-not-the-base-name', True, 'source_file_name = %s' % (fn,), 'C09')
                 if pa.get('emit_source_map_columns') is not True:
-                    vio('transform/column-mappings-disabled', True, '')
+                    vio('transform/column-mappings-disabled', True, '', 'C09')
         info['sample'] = {'input': 'status %s' % st, 'output': 'prints=%d' % len(prints), 'status': st, 'hooks': info['hooks']}
         return info
 
